@@ -145,10 +145,11 @@ def run_unit(unit, acc):
         check_case(dict(kind="task_lists", tasks=[]), acc)
         # dictionaries keyed by task names with other keys in between: every task keeps its own entry
         junk = ["foo", "", "Detection3d", "sensing_", "none"]
-        for a in names:
+        values = [m.value for m in EvaluationTask]
+        for a in values:
             for j in junk[:3]:
                 for order in range(3):
-                    keys = [[j, a], [a, j], [j, a, junk[3], names[(names.index(a) + 1) % len(names)]]][order]
+                    keys = [[j, a], [a, j], [j, a, junk[3], values[(values.index(a) + 1) % len(values)]]][order]
                     check_case(dict(kind="task_dict", keys=keys), acc)
     elif unit["kind"] == "frame_distinct":
         for a in FrameID:
